@@ -36,7 +36,7 @@ KINDS = ["truncate", "tok_delete", "tok_dup", "tok_replace", "char_flip", "inser
 STEP_A = 700
 STEP_B = 200
 STEP_C = 5000
-FOLLOW_STEP_BUDGET = 30_000_000
+FOLLOW_STEP_BUDGET = 3_000_000
 
 _TOK = re.compile(r"[Mm]|[Zz]|[-+]?(?:[0-9]*\.[0-9]+|[0-9]+)")
 
@@ -281,6 +281,22 @@ def _pos_class(s, pos):
     return "junk"
 
 
+def _bounded(fn, budget):
+    """Run fn under the line-step budget. Returns (exception or None, exceeded)."""
+    exc = None
+    core.STEPS.start(budget)
+    try:
+        fn()
+    except core.StepBudgetExceeded:
+        pass
+    except MemoryError as e:
+        exc = e
+    except Exception as e:
+        exc = e
+    core.STEPS.stop()
+    return exc, core.STEPS.exceeded
+
+
 def execute(case, se, out, trace):
     V = core.Violation
     s = case["s"]
@@ -330,11 +346,9 @@ def execute(case, se, out, trace):
 
     # constructor form: exception type only
     if not long_input and pre is None:
-        try:
-            se.Path(s)
-            c_exc = None
-        except Exception as e:
-            c_exc = e
+        c_exc, over = _bounded(lambda: se.Path(s), budget)
+        if over:
+            raise V("steps", ["ctor", "len=%d" % min(len(s), 9999)], "Path(%r) did not finish within %d line steps" % (_short(s), budget))
         if c_exc is not None and not isinstance(c_exc, ValueError):
             raise V("exc-type", [type(c_exc).__name__, core.exc_sig(c_exc)[1], _cmd_at_error(c_exc), "ctor"], "Path(%r) raised %r" % (_short(s), c_exc))
         if (c_exc is None) != (exc is None):
@@ -348,13 +362,15 @@ def execute(case, se, out, trace):
             cut = gp.longest_valid_prefix(s, continuation=pre is not None)
             # the valid prefix is parsed by a pristine instance of the library (nothing kept from earlier calls)
             ref = core.fresh_se().Path()
-            try:
+
+            def _ref():
                 if pre is not None:
                     ref.parse(pre)
                 ref.parse(s[:cut])
-                ref_ok = True
-            except Exception:
-                ref_ok = False
+
+            r_exc, r_over = _bounded(_ref, 2 * budget + 20000)
+            ref_ok = r_exc is None and not r_over
+            if not ref_ok:
                 out.count("skip:prefix-reference-raises")
             if ref_ok:
                 trace.ev("prefix", cut, ob.kinds(ref))
@@ -376,18 +392,17 @@ def execute(case, se, out, trace):
         for ps in case["poison"]:
             out.count("fault:poison-parse-between")
             q0 = se.Path()
-            try:
-                q0.parse(ps)
-            except Exception:
-                pass
+            _bounded(lambda: q0.parse(ps), step_budget(ps))
         p2 = se.Path()
-        exc2 = None
-        try:
+
+        def _again():
             if pre is not None:
                 p2.parse(pre)
             p2.parse(s)
-        except Exception as e:
-            exc2 = e
+
+        exc2, over2 = _bounded(_again, 2 * budget + 20000)
+        if over2:
+            raise V("history", ["steps"], "parse(%r) finished at first but not within %d line steps after an unrelated parse of %r" % (_short(s), 2 * budget, case["poison"]))
         second = ("returned" if exc2 is None else type(exc2).__name__, ob.path_snap(list(p2)))
         trace.ev("reparse", second[0], ob.kinds(p2))
         if first[0] != second[0]:
@@ -423,12 +438,19 @@ def execute(case, se, out, trace):
         ]
     for name, fn in follow:
         out.count("op:" + name)
+        core.STEPS.start(FOLLOW_STEP_BUDGET)
         try:
             r = fn()
+        except core.StepBudgetExceeded:
+            core.STEPS.stop()
+            out.count("skip:follow-up-step-budget")
+            continue
         except RecursionError as e:
             raise V("usable", [name, "RecursionError", core.exc_sig(e)[1]], "%s() on the result of parse(%r) raised RecursionError" % (name, _short(s)))
         except Exception as e:
             raise V("usable", [name, type(e).__name__, core.exc_sig(e)[1]], "%s() on the result of parse(%r) [%s] raised %r" % (name, _short(s), ob.kinds(p), e))
+        finally:
+            core.STEPS.stop()
         trace.ev(name, r if not isinstance(r, str) or len(r) < 200 else len(r))
     out.count("probe:usable-checked")
 
